@@ -963,6 +963,74 @@ def fam_mod_items_exhaustive(rng):
     return out
 
 
+# every header shape of an entraited trait: generics x where clause x supertraits x visibility x delegation kind
+def fam_trait_header_exhaustive(rng):
+    out = []
+    gens = ["", "<T>", "<'a>", "<'a, T: Clone>", "<T, const N: usize>", "<T = i32>", "<>"]
+    wheres = ["", " where Self: Sized", " where Self: Clone + Send,", " where T: Send", " where Self: 'static, T: Into<i32>", " where"]
+    supers = ["", ": Clone", ": Clone + Send", ": 'static + Sync", ":"]
+    for g in gens:
+        for w in wheres:
+            if " T:" in w and "T" not in g.replace("'a", ""):
+                continue
+            for s in supers:
+                for vis in ("", "pub "):
+                    for attr in ("", "delegate_by = ref", "FooImpl, delegate_by = Deleg", "mock_api = M, unimock"):
+                        if rng.random() < 0.4:      # part of the product, chosen by the seed
+                            out.append(Case("trait_header_exhaustive", attr, "%strait Tr%s%s%s { fn m(&self, a: i32) -> i32; }" % (vis, g, s, w)))
+    return out
+
+
+# where predicates by what they bound and by where they name a lifetime of the function (top level, inside `<..>`, inside a
+# delimited group, under a `for<..>` binder), for every kind of dependency, alone and in pairs, in fn and module mode
+WHERE_T = ["T: Clone", "T: 'a", "T: Tr<'a>", "T: Fn(&'a i32) -> i32", "T: FnOnce((&'a str, u8)) -> [&'a u8; 2]", "[&'a T]: Sized",
+           "(T, &'a u8): Clone", "&'a T: Clone", "Vec<T>: Clone", "T::Item: Copy", "<T as Tr>::X: Into<&'a i32>",
+           "::core::option::Option<T>: Clone", "for<'x> T: Fn(&'x i32)", "for<'x> T: Tr<'x> + Send", "T: for<'x> Tr<'x>",
+           "for<'x> &'x T: Into<&'a i32>", "'a: 'static", "T: ?Sized", "T: Tr<{ 1 }>", "T: Fn([u8; { let _: &'a u8; 1 }])"]
+WHERE_D = ["D: A", "D: A + B", "for<'x> D: R<'x>", "for<'x> D: R<'x> + Send, D: Sync", "D: for<'x> R<'x>", "for<'x,> D: (R<'x>)", "for<> D: A",
+           "D: 'a", "D: ?Sized + A", "D: A, D: B", "D: Tr<'a>", "for<'x, 'y> D: P<'x, 'y> + ::core::marker::Send + 'static",
+           "for<'x> D: ?Sized + R<'x>", "for<'x> D: (R<'x>) + 'x", "D: Fn(&'a i32)", "for<'x> D: Fn(&'x i32) -> &'x i32"]
+
+
+def fam_where_exhaustive(rng):
+    out = []
+    kinds = [("<'a, D, T>", "deps: &D, ", "Foo", WHERE_D + WHERE_T), ("<'a, D, T>", "deps: D, ", "Foo", WHERE_D + WHERE_T),
+             ("<'a, T>", "deps: &impl A, ", "Foo", WHERE_T), ("<'a, T>", "deps: &App, ", "Foo", WHERE_T), ("<'a, T>", "", "Foo, no_deps", WHERE_T)]
+    for g, deps, attr, pool in kinds:
+        for p in pool:
+            out.append(Case("where_exhaustive", attr, "fn f%s(%sx: &'a T) where %s {}" % (g, deps, p)))
+        for _ in range(12):
+            ps = rng.sample(pool, rng.choice([2, 3]))
+            out.append(Case("where_exhaustive", attr, "fn f%s(%sx: &'a T) where %s%s {}" % (g, deps, ", ".join(ps), rng.choice(["", ","]))))
+        for _ in range(8):
+            p, q = rng.choice(pool), rng.choice(pool)
+            out.append(Case("where_exhaustive", attr, "mod m { pub fn f%s(%sx: &'a T) where %s {} pub fn g%s(%sy: &'a T) where %s {} }" % (
+                g, deps, p, g.replace("T", "U"), deps, q.replace("T", "U"))))
+    for p in WHERE_D + WHERE_T[:8]:
+        out.append(Case("where_exhaustive", "", "impl FooImpl for MyType { fn f<'a, D, T>(deps: &D, x: &'a T) where %s {} }" % p))
+    return out
+
+
+# an entraited module whose functions (or nested modules) are themselves entraited: the outer expansion must still contain every
+# function, and the inner invocations are recorded (and decided) as invocations of their own
+def fam_nested_entrait(rng):
+    out = []
+    inner = ["#[entrait::entrait(pub Inner)]", "#[entrait::entrait(Inner, no_deps)]", "#[::entrait::entrait_export(pub Inner)]",
+             "#[entrait::entrait(pub Inner, mock_api = M)]", "#[doc = \"x\"] #[entrait::entrait(Inner)] #[inline]"]
+    for a in inner:
+        nd = "no_deps" in a
+        f = "%s pub fn f(%sa: i32) -> i32 { a }" % (a, "" if nd else "deps: &impl A, ")
+        g = "pub fn g(%s) {}" % ("" if nd else "deps: &impl A")
+        for attr in ("pub Outer", "Outer, mock_api = OuterMock, unimock"):
+            attr = attr + (", no_deps" if nd else "")
+            out.append(Case("nested_entrait", attr, "mod m { %s %s }" % (f, g)))
+            out.append(Case("nested_entrait", attr, "mod m { %s %s }" % (g, f)))
+            out.append(Case("nested_entrait", attr, "mod m { %s }" % f))
+    out.append(Case("nested_entrait", "pub Outer", "mod m { #[entrait::entrait(pub In)] pub mod inner { pub fn h(deps: &impl A) {} } pub fn g(deps: &impl A) {} }"))
+    out.append(Case("nested_entrait", "pub Outer", "mod m { pub fn g(deps: &impl A) {} #[entrait::entrait] pub trait Tq { fn q(&self); } }"))
+    return out
+
+
 def build_corpus(seed, tier):
     rng = random.Random(seed)
     thorough = tier == "thorough"
@@ -985,6 +1053,9 @@ def build_corpus(seed, tier):
     cases += fam_deps_exhaustive(rng)
     cases += fam_trait_methods_exhaustive(rng)
     cases += fam_mod_items_exhaustive(rng)
+    cases += fam_trait_header_exhaustive(rng)
+    cases += fam_where_exhaustive(rng)
+    cases += fam_nested_entrait(rng)
     for i, c in enumerate(cases):
         c.cid = i
     return cases
